@@ -430,3 +430,121 @@ Contract(ISAR, 'make_enum', ['C17'], me_setup, me_post, raises=me_raises, modifi
          loops={1: LoopAnn(me_inv, index='k', locals_={'members': fresh_members}, extra_havoc=('members',))},
          notes=['int(s, 0) / "0x{:X}".format as uninterpreted NUMERIC / INTOF / HEXTEXT; expand_operators opaque; '
                 'check_for_duplicates summarised (raises ValueError or returns, reads only)'])
+
+
+# ------------------------------------------------------------------------------------------------ make_union
+#
+# make_union(xml_elem): an element without children denotes nothing (None); otherwise a Union named as the element with
+# exactly one arm per child, in order: UnionMember(name_i, type_i, discriminatorValue_i) -- the discriminator text is
+# taken over as written.  ParseError for a missing name / type / discriminatorValue and nothing else.
+
+U_NONE = {a: z3.Function('arm.%s#none' % a, z3.IntSort(), z3.BoolSort()) for a in ('name', 'type', 'discriminatorValue', 'comment')}
+U_VAL = {a: z3.Function('arm.%s' % a, z3.IntSort(), StrSort) for a in ('name', 'type', 'discriminatorValue', 'comment')}
+UNAME = z3.Function('UnionMember.name', Ref, StrSort)
+UTYPE = z3.Function('UnionMember.type_name', Ref, StrSort)
+UDISC = z3.Function('UnionMember.discriminator', Ref, StrSort)
+
+
+class UnionElem(Elem):
+    pass
+
+
+class ArmElem(Sym):
+    def __init__(self, i):
+        self.i = i
+        self.tag = 'member'
+
+    def attr(self, a):
+        return SOptStr(U_NONE[a](self.i), U_VAL[a](self.i))
+
+
+UnionElem.sym_len = lambda self, vm: SInt(NCHILD())
+
+
+def mu_setup(vm, module, env):
+    elem = UnionElem(vm, 'union', ['name', 'comment'])
+    vm.assume(NCHILD() >= 0)
+    st = {'args': [elem], 'elem': elem, 'closure_env': {}, 'members': None, 'enum': None}
+    vm.state = st
+    return st
+
+
+def mu_hooks():
+    base = me_hooks()
+
+    def getattr_(vm, obj, attr):
+        if isinstance(obj, ArmElem) and attr == 'get':
+            return I.MethodOf(obj, 'get')
+        if isinstance(obj, ArmElem) and attr == 'tag':
+            return obj.tag
+        return base['getattr'](vm, obj, attr)
+
+    def method(vm, obj, name, args, kwargs):
+        if isinstance(obj, ArmElem) and name == 'get':
+            v = obj.attr(args[0])
+            if len(args) > 1 and args[1] is not None:
+                return SStr(z3.If(v.isnone, vm.as_str(args[1]), v.t))
+            return v
+        return base['method'](vm, obj, name, args, kwargs)
+
+    def call(vm, fn, args, kwargs, node):
+        st = vm.state
+        n = getattr(fn, 'name', None) or getattr(fn, 'qualname', None) or ''
+        last = n.split('.')[-1] if isinstance(n, str) else ''
+        if isinstance(fn, Closure) and last == 'get_required' and isinstance(args[0], ArmElem):
+            v = args[0].attr(args[1])
+            if vm.decide(v.isnone):
+                raise PyRaise(I.ExcClass('ParseError'))
+            return SStr(v.t)
+        if last == 'UnionMember':
+            if len(args) != 3 or any(k != 'docstring' for k in kwargs):
+                raise OutOfSubset('UnionMember constructor shape')
+            r = vm.fresh_ref('union_member', None)
+            vm.assume(z3.And(UNAME(r.t) == vm.as_str(args[0]), UTYPE(r.t) == vm.as_str(args[1]), UDISC(r.t) == vm.as_str(args[2])))
+            return r
+        if last == 'Union' and not isinstance(fn, Closure):
+            if len(args) != 2 or any(k != 'docstring' for k in kwargs):
+                raise OutOfSubset('Union constructor shape')
+            st['enum'] = EnumObj(args[0], args[1])
+            return st['enum']
+        return base['call'](vm, fn, args, kwargs, node)
+
+    def iterate(vm, it):
+        if isinstance(it, UnionElem):
+            return SSeq(NCHILD(), lambda i: ArmElem(i), 'children')
+        return NotImplemented
+
+    h = dict(base)
+    h.update({'getattr': getattr_, 'method': method, 'call': call, 'iterate': iterate})
+    return h
+
+
+def arms_facts(vm, ms, k):
+    if isinstance(ms, list):
+        return [('arms collected so far', z3.And(k == 0, z3.BoolVal(len(ms) == 0)))]
+    j = z3.Int('j')
+    return [('one arm per child so far', ms.length == k),
+            ('each arm carries the name, type and discriminator of its child',
+             z3.ForAll([j], z3.Implies(z3.And(0 <= j, j < k),
+                                       z3.And(UNAME(ms.elem(j).t) == U_VAL['name'](j), UTYPE(ms.elem(j).t) == U_VAL['type'](j),
+                                              UDISC(ms.elem(j).t) == U_VAL['discriminatorValue'](j)))))]
+
+
+def mu_post(vm, st, result):
+    if result is None:
+        return [('None only for an element without children', NCHILD() == 0)]
+    if not isinstance(result, EnumObj):
+        return [('result is the Union built here', z3.BoolVal(False))]
+    return [('a Union only for an element with children', NCHILD() > 0),
+            ('named as the element', vm.as_str(result.name) == st['elem'].attrs['name'].t)] + arms_facts(vm, result.members, NCHILD())
+
+
+def mu_raises(vm, st, exc_class, exc_args):
+    n = str(getattr(exc_class, 'name', exc_class))
+    return [('only ParseError (missing attribute)', z3.BoolVal(n.endswith('ParseError')))]
+
+
+Contract(ISAR, 'make_union', ['C17'], mu_setup, mu_post, raises=mu_raises, modifies=[], hooks=mu_hooks(),
+         loops={0: LoopAnn(lambda vm, env, k: arms_facts(vm, env.get('members'), k), index='k',
+                           locals_={'members': fresh_members}, extra_havoc=('members',))},
+         notes=['ElementTree accessors assumed; attribute values opaque'])
